@@ -228,7 +228,7 @@ func execC12(sc c12Scenario) core.Outcome {
 }
 
 var propC12 = core.Prop[c12Scenario]{
-	ID: "C12",
+	ID: "C12", CrashLog: true,
 	Rule: "a C10 stream plus one injection: Close (1-3 calls) when the server sees request #n (before it is answered), inside OnTracks, inside the n-th data callback, or after EOS; a fault at request #n (404, 500, transport error, body that stalls until cancelled, truncated body), optionally with a Close as well; OnTracks returning an error; " +
 		"oracle: exactly one value from Wait(), of the right kind (OnTracks error / status / transport error surfaced, EOS when undisturbed, termination after Close), no user callback afterwards, no client goroutine left (goroutine dump polled for 3 s); non-trivial = the injection landed while the pipeline was running",
 	Draw: drawC12,
